@@ -1,11 +1,11 @@
 PROP = {
-    "groups": ["proc"],
+    "groups": ["proc", "e2e-hang"],
     "rule": "proc: for each of the three generated nets (send, recv, hash) the numbers of goroutines, channels, "
             "defer-closed channels, range loops and the sorted channel capacities counted by an independent name-based "
             "go/ast walk vs the numbers the extracted model computes from the generated skeleton; plus the real sender "
             "against a peer that falls silent at the 1st/2nd DATA frame: goroutines left after the client returned vs "
             "wf(send_net); every case is non-trivial; distinct = distinct input line. "
-            "(The fault/stop/pause sweeps of C11 are in the group 'faults' of the end-to-end driver.)",
+            "e2e-hang: the real client (filter) against the real trz/tsz children with a fault injected at a sampled write boundary after the handshake has begun: one direction falls silent, one write is discarded, the server's input is closed, the source shrinks or disappears mid-transfer, the destination directory disappears; oracles: both sides return within 3 x timeout + 6 s, and 1.5 s after all runs no goroutine with a trzszTransfer / sendDataWriter / recvDataReader frame is left in the client process.",
     "trusted": [
         "skeleton translator go/cmd/gen/skel_*.go: syntactic; classification table of wire/file calls (skTable); "
         "a call it cannot classify becomes Io Unknown, which wf rejects",
@@ -18,17 +18,18 @@ PROP = {
     "assumptions": ["Timeout > 0 (a timeout <= 0 means the user asked to wait indefinitely)",
                     "the Go runtime schedules runnable goroutines and fires timers (wall-clock bounds are measured, not proved)",
                     "theorems start from a state in which some stage has called ctx.cancel; that every fault reaches such a call is exercised by the e2e fault sweep, not proved here"],
-    "nontrivial_floor": 0.5,
-    "timeout": 300,
+    "nontrivial_floor": 0.3,
+    "timeout": 600,
 }
 TEXT = {
     "text": "Machine-checked proof about the goroutine skeletons regenerated on every run from pipeline.go and append.go "
             "(process-network language, interleaving semantics with bounded channels, close flags, wait groups): for every "
             "well-formed net, from every reachable state in which the context is cancelled, every execution under every "
-            "schedule has at most an explicit number of further steps and ends with every goroutine exited. The receive "
-            "net and the hash net are well-formed; the send net has exactly one violation, bufInitWG.Wait() without a "
-            "cancellation arm, which is a real goroutine leak reproduced on the implementation (known finding "
-            "bufinit-wait-leak, fix proposed); the theorem is proved for the send net with that wait assumed to return.",
+            "schedule has at most an explicit number of further steps and ends with every goroutine exited. "
+            "The send net, the receive net and the hash net are all well-formed (the send net only since the fix of the "
+            "buffer-size probing wait, a real goroutine leak found by this check: KNOWN_FINDINGS fixed bufinit-wait-leak). "
+            "The theorems are tied to the code by regenerating the skeletons, by translator sanity counts, and by fault "
+            "injection on the real client and server with hang and goroutine-leak oracles.",
     "note": "Trusted: Coq kernel, skeleton translator, extraction, OCaml driver, Go harness. Not proved: wall-clock bounds, "
             "fault => cancel for each fault kind, absence of deadlock without a fault, the check/send race on ctx.succ "
             "(send on a closed channel is a modelled panic step, not excluded).",
